@@ -3,6 +3,7 @@ Line-protocol driver of the model: one request per line on stdin, one answer per
 Run with `lake env lean --run Main.lean` or as the compiled `driver` executable.
 -/
 import Mathy.Model.Wire
+import Mathy.Model.HeapOps
 open Mathy
 
 def withTree (toks : List String) (f : Ex → List String → String) : String :=
@@ -75,6 +76,16 @@ def answer (line : String) : String :=
         let h := (Heap.ofCells (t.toCells none)).rotate i
         s!"shape {shape.toWire} cells {cellsToWire h t.ids}"
       | none => "bad-op"
+  | "attach" :: q :: d :: rest =>
+    -- attach <q> <L|R> <shape t> | <shape s> : q.set_side(root of s) on the heap of t and s
+    let tw := rest.takeWhile (· ≠ "|")
+    let sw := (rest.dropWhile (· ≠ "|")).drop 1
+    match q.toNat?, BT.ofWire (tw.length + 1) tw, BT.ofWire (sw.length + 1) sw with
+    | some q, some (t, _), some (s, _) =>
+      let h := Heap.ofCells (t.toCells none ++ s.toCells none)
+      let h' := h.setSide q s.rootId (if d == "L" then .L else .R)
+      s!"cells {cellsToWire h' (t.ids ++ s.ids)}"
+    | _, _, _ => "bad-op"
   | "layout" :: ux :: uy :: rep :: rest => withShape rest fun t =>
       match ratOfWire ux, ratOfWire uy with
       | some ux, some uy =>
